@@ -5,6 +5,7 @@
 package runner
 
 import (
+	"syscall"
 	"crypto/sha1"
 	"encoding/json"
 	"flag"
@@ -20,6 +21,7 @@ import (
 	"time"
 
 	"verif/explore"
+	"verif/vs"
 )
 
 const VerifDir = "/verif"
@@ -41,6 +43,9 @@ type Property struct {
 	Rule        string
 	// Extra lets sequential (non-scheduler) parts contribute: it runs in the parent, returns extra coverage and violations.
 	Extra func(tier string, seed int64) *ExtraResult
+	// wall-clock budgets of a whole tier run in seconds (0 = default 150 / 2400); running out of budget is
+	// reported as exhaustive:false, never as a violation
+	QuickBudgetS, ThoroughBudgetS int
 }
 
 type ExtraResult struct {
@@ -85,11 +90,18 @@ type workerOut struct {
 	Stats []*explore.Stats `json:"stats"`
 }
 
-func tierDefaultBudget(tier string) int {
+// tierBudget is the wall-clock budget of one whole tier run (all scenarios).
+func tierBudget(p Property, tier string) int {
 	if tier == "thorough" {
-		return 900
+		if p.ThoroughBudgetS > 0 {
+			return p.ThoroughBudgetS
+		}
+		return 2400
 	}
-	return 90
+	if p.QuickBudgetS > 0 {
+		return p.QuickBudgetS
+	}
+	return 150
 }
 
 func Main(p Property) {
@@ -102,6 +114,7 @@ func Main(p Property) {
 	evidence := flag.String("evidence", filepath.Join(VerifDir, "evidence", p.ID+".json"), "evidence file")
 	only := flag.String("scenario", "", "regexp: only scenarios whose name matches")
 	list := flag.Bool("list", false, "list scenarios")
+	trace := flag.Bool("trace", false, "print the default-schedule trace of the first selected scenario")
 	flag.Parse()
 	if *tier == "" {
 		*tier = "quick"
@@ -138,6 +151,19 @@ func Main(p Property) {
 		}
 		return
 	}
+	if *trace {
+		sc := scs[0].Scenario
+		sc.Mode = "D0"
+		cfg := sc.Cfg
+		cfg.Trace = true
+		inst := sc.New()
+		r := vs.Execute(cfg, explore.First{}, inst.Run)
+		for _, l := range r.Trace {
+			fmt.Println(l)
+		}
+		fmt.Println("check:", inst.Check(r), "outcome:", inst.Outcome())
+		return
+	}
 	if *replay != "" {
 		os.Exit(doReplay(p, *replay))
 	}
@@ -150,15 +176,33 @@ func Main(p Property) {
 
 func runWorker(p Property, scs []Sc, tier string, w, n int, out string, tmp string) {
 	var res workerOut
+	start := time.Now()
+	total := time.Duration(tierBudget(p, tier)) * time.Second
+	nsplit := 0
+	for _, sc := range scs {
+		if sc.Split {
+			nsplit++
+		}
+	}
+	done := 0
 	for k, sc := range scs {
 		if !sc.Split && k%n != w {
 			continue
 		}
-		budget := sc.BudgetS
-		if budget == 0 {
-			budget = tierDefaultBudget(tier)
+		// fair share of what is left of the tier budget (split scenarios are worked on by all workers together)
+		left := total - time.Since(start)
+		share := left
+		if sc.Split && nsplit-done > 0 {
+			share = left / time.Duration(nsplit-done)
+			done++
 		}
-		opt := explore.Options{Deadline: time.Now().Add(time.Duration(budget) * time.Second)}
+		if sc.BudgetS > 0 && time.Duration(sc.BudgetS)*time.Second < share {
+			share = time.Duration(sc.BudgetS) * time.Second
+		}
+		if share < time.Second {
+			share = time.Second
+		}
+		opt := explore.Options{Deadline: time.Now().Add(share)}
 		if sc.Split && n > 1 {
 			opt.Shard, opt.NShards = w, n
 			bits := sc.TableBits
@@ -237,6 +281,7 @@ func runParent(p Property, scs []Sc, tier string, seed int64, n int, evidencePat
 			args = append(args, "-scenario", only)
 		}
 		cmd := exec.Command(os.Args[0], args...)
+		cmd.SysProcAttr = &syscall.SysProcAttr{Pdeathsig: syscall.SIGKILL}
 		cmd.Env = append(os.Environ(), "GOMAXPROCS=2", "GOGC=200")
 		cmd.Stdout = os.Stderr
 		cmd.Stderr = os.Stderr
